@@ -31,7 +31,7 @@ class Sched:
     def __init__(self, choose, max_steps=20000):
         """choose(enabled_tasks:list[Task], sched) -> Task"""
         self.choose = choose; self.tasks = []; self.events = []; self.main_sem = threading.Semaphore(0)
-        self.max_steps = max_steps; self.steps = 0; self.choices = []; self.nenabled = []
+        self.max_steps = max_steps; self.steps = 0; self.choices = []; self.nenabled = []; self.aborted = False
 
     def spawn(self, name, fn):
         t = Task(name); self.tasks.append(t)
@@ -60,6 +60,7 @@ class Sched:
             # not under the scheduler (e.g. set-up code): perform immediately
             if not enabled(): raise Deadlock("op %s outside scheduler would block" % kind)
             return effect()
+        if self.aborted: raise _Aborted()
         t.pending = (kind, obj, enabled, effect)
         self.main_sem.release()
         t.sem.acquire()
@@ -94,11 +95,12 @@ class Sched:
 
     def abort(self):
         """Release every parked thread with an exception so no thread leaks after a deadlock verdict."""
+        self.aborted = True
         for t in self.tasks:
             if not t.done and t.pending is not None:
                 t.pending = None; t.result = _Raise(_Aborted()); t.sem.release()
         for t in self.tasks:
-            if t.thread is not None: t.thread.join(timeout=2)
+            if t.thread is not None: t.thread.join(timeout=0.5)
 
 
 class _Aborted(BaseException):
@@ -154,13 +156,13 @@ class VQueue:
     def put(self, x):
         s = _S()
         def eff():
-            self.items.append(x); s.log(e="put", q=self.vname, n=len(self.items), task=_tls.acting.name, x=_lab(x))
+            s.log(e="put", q=self.vname, n=len(self.items), task=_tls.acting.name, x=_lab(x)); self.items.append(x)   # logged before the effect: snapshots are pre-states
         s.op("put", self, lambda: not self.maxsize or len(self.items) < self.maxsize, eff)
 
     def get(self):
         s = _S()
         def eff():
-            x = self.items.pop(0); s.log(e="get", q=self.vname, n=len(self.items), task=_tls.acting.name, x=_lab(x)); return x
+            s.log(e="get", q=self.vname, n=len(self.items), task=_tls.acting.name, x=_lab(self.items[0])); return self.items.pop(0)
         return s.op("get", self, lambda: len(self.items) > 0, eff)
 
     def get_nowait(self):
